@@ -87,6 +87,15 @@ def main():
             for f in set(all_replays()) - before:
                 os.unlink(f)
         entry["caught"] = any(c["rc"] == 1 and c["violations"] for c in entry["checks"].values())
+        own = entry["checks"].get(meta["property"], {})
+        entry["caught_by_own_property"] = bool(own.get("rc") == 1 and own.get("violations"))
+        # a catch must come from a check that ran: a harness that does not build reports `infrastructure`
+        entry["infrastructure_only"] = bool(entry["caught"]) and all(
+            all("infrastructure" in v for v in c["violations"]) for c in entry["checks"].values() if c["violations"])
+        if meta.get("equivalent_since"):
+            # the change breaks nothing on the current HEAD (see meta.json): no alarm is the right answer
+            entry["equivalent_since"] = meta["equivalent_since"]
+            entry["expected"] = "no alarm"
         results[sid] = entry
         json.dump(results, open(results_path, "w"), indent=1)
     # sanity: the unchanged tree must be quiet again
